@@ -98,7 +98,7 @@ class Pauli(object):
         return torch.sum(torch.sum(self.g.reshape(self.N, 2), -1) != 0)
 
     def copy(self):
-        return Pauli(self.g.clone(), self.p)
+        return Pauli(self.g.clone(), self.p.clone() if torch.is_tensor(self.p) else self.p)
 
     def as_polynomial(self):
         '''cast a Pauli operator to a Pauli polynomial'''
